@@ -7,6 +7,7 @@ import (
 	"fmt"
 	"os"
 
+	"verif/harness/c04"
 	"verif/harness/c13"
 	"verif/harness/c14"
 	"verif/harness/c16"
@@ -32,6 +33,12 @@ func main() {
 	_ = in
 	_ = mode
 	switch prop {
+	case "c04":
+		if *mode == "bam" {
+			c04.RunBAM(*out)
+		} else {
+			c04.Run(*out)
+		}
 	case "c13":
 		if *mode == "bam" {
 			c13.RunBAM(*out)
